@@ -21,5 +21,5 @@ if [ "$REPO" != "/repo" ]; then
 fi
 RACE=""
 BIN="$OUT/harness.test"
-if [ "$2" = "race" ]; then RACE="-race"; BIN="$OUT/harness.race.test"; fi
+if [ "$2" = "race" ]; then RACE="-race -gcflags=all=-d=checkptr=0"; BIN="$OUT/harness.race.test"; fi
 go test -c $RACE $MODFILE -tags verif -overlay "$OUT/src/overlay.json" -o "$BIN" ./harness 2>"$OUT/build.log" || { cat "$OUT/build.log"; exit 2; }
